@@ -19,6 +19,9 @@ OTHER = "⟂OTHER"
 EXC = "⟂EXCEPTION"
 
 
+NEAR_MISSES = ["", "PERM", "EXEC", "PERMITTED"]
+
+
 def alphabet(p):
     """statement's verdict alphabet ∪ every string constant the loop compares an
     action_type with ∪ OTHER (a string equal to none of them)"""
@@ -31,7 +34,11 @@ def alphabet(p):
                     if isinstance(x, ast.Constant) and isinstance(x.value, str):
                         found.add(x.value)
     extra = sorted(found - set(SPEC_ALPHABET))
-    return SPEC_ALPHABET + extra + [OTHER], extra
+    # near misses of the approving verdicts: unknown verdicts all the same ("any unknown verdict … yields blocked"), but
+    # the ones a sloppy membership test lets through — the empty string and a proper prefix (substring test against a
+    # string instead of a tuple), a longer word (startswith / `"PERMIT" in verdict`)
+    near = [x for x in NEAR_MISSES if x not in SPEC_ALPHABET and x not in extra]
+    return SPEC_ALPHABET + extra + [OTHER] + near, extra
 
 
 def gates(p):
